@@ -53,6 +53,7 @@ const (
 	vpfSecondErr
 	vpfSecondBadBytes
 	vpfWaitErr1
+	vpfMissingRoot // a fed root names no object: rev-list refuses it ("bad object") unless told to --ignore-missing
 	vpfDeadEarly // rev-list dies before it has read its input: the pipe takes faultPos more roots, then the feeder blocks
 	vpfCount
 )
@@ -111,6 +112,23 @@ func vpInstallScanStubs(sc *vpScan) {
 			}
 		}
 		i := sc.nextFirst
+		if sc.fault == vpfMissingRoot && i == 0 {
+			ignoring := false
+			for _, c := range sc.commands {
+				if len(c) > 0 && c[0] == "rev-list" {
+					for _, a := range c {
+						if a == "--ignore-missing" {
+							ignoring = true
+						}
+					}
+				}
+			}
+			if !ignoring {
+				sc.dead1 = true
+				return git.BatchHeader{ObjectType: "missing"}, false, errVPFault // fatal: bad object <id>
+			}
+			// with --ignore-missing git drops the root silently and lists the rest
+		}
 		if sc.fault == vpfDeadEarly {
 			sc.dead1 = true
 			return git.BatchHeader{ObjectType: "missing"}, false, errVPFault
@@ -327,7 +345,7 @@ func VPH_scan() {
 	struck := false
 	nTCT := nobj - 2 // trees + commits + tags requested in the second pass
 	switch sc.fault {
-	case vpfStart1, vpfStart2, vpfWaitErr1, vpfDeadEarly:
+	case vpfStart1, vpfStart2, vpfWaitErr1, vpfDeadEarly, vpfMissingRoot:
 		struck = true
 	case vpfAddRoot:
 		struck = sc.faultPos < len(wantAdd)
